@@ -15,7 +15,9 @@ def run(chk):
         'x every subset of quantified variables x both quantifiers x both '
         'orders, through dd.bdd.image/preimage (names and levels) and '
         'dd.autoref.image/preimage; 2 pairs (a,b),(c,d): sampled relations '
-        'and operands out of all 65536 functions, for every order of the 24 '
+        'and operands out of all 65536 functions, for every order of the 24, '
+        'plus STRUCTURED relations ite(v, f, g) (f, g two-variable functions) '
+        'against all sets over the unprimed / primed pair '
         '(preimage only where pairs are adjacent; image also for non-adjacent '
         'orders, where it may refuse). TLC re-evaluates the documented '
         'preconditions (rows outside them are not judged) and checks each '
@@ -32,6 +34,10 @@ def run(chk):
     for o in sel:
         for rep in range(1 if q else 6):
             tasks.append(dict(npairs=2, order=o, mode='sample'))
+    adj = [o for o in orders4 if abs(o.index('a') - o.index('b')) == 1 and abs(o.index('c') - o.index('d')) == 1]
+    for i in range(4 if q else 32):
+        tasks.append(dict(npairs=2, order=adj[(chk.seed + i) % len(adj)], mode='structured',
+                          count_T=40 if q else 150))
     for t in tasks:
         t.update(shard=chk.shard('sw_c13_%d' % tid), tid=tid, seed=chk.seed * 3 + tid)
         tid += 1
